@@ -527,6 +527,11 @@ def gen_cases(ctx, zoo, zoo_seed, boost=1):
             if heavy:
                 pairs = [p for p in pairs if rng.random() < 0.25]
             pairs += [((2, 1, 3), (2, 1)), ((2, 1, 3), (3, 1, 1)), ((1, 2, 1, 2), (2, 1)), ((0,), (1,)), ((2, 0), ()), ((0, 3), (1, 3))]
+            for _ in range(10 if heavy else 40):  # rank 3 and 4, unequal ranks, stretched axes
+                out = tuple(int(v) for v in rng.choice([1, 2, 3], size=int(rng.integers(3, 5))))
+                while int(np.prod(out)) > 36:
+                    out = out[1:]
+                pairs.append((derive(rng, out), derive(rng, out)))
             if not cond:
                 pairs = sorted(set((a, ()) for a, _ in pairs))
         for xb, cb in pairs:
@@ -580,7 +585,7 @@ def gen_cases(ctx, zoo, zoo_seed, boost=1):
                 sfixed = [((3,), (2,)), ((2, 2), (1, 3)), ((2,), (1, 1)), ((1,), (2, 1)), ((1, 2), (3, 1))]
                 spairs.append(sfixed[int(rng.integers(0, len(sfixed)))])
         else:
-            l1 = lattice(1) + [(2, 2), (1, 3), (2, 1)]
+            l1 = lattice(1) + [(2, 2), (1, 3), (2, 1), (3, 1), (1, 1), (3, 2), (2, 1, 2)]
             spairs = [(a, b) for a in l1 for b in (l1 if cond else [()])]
             if heavy:
                 spairs = [p for p in spairs if rng.random() < 0.4]
